@@ -96,6 +96,7 @@ struct Inner {
     cfgs: Vec<String>,
     unsafes: Vec<String>,
     calls: Vec<String>,
+    pathcalls: Vec<String>,
 }
 
 impl Inner {
@@ -190,7 +191,9 @@ impl<'ast> Visit<'ast> for Inner {
     }
     fn visit_macro(&mut self, m: &'ast syn::Macro) {
         let name = m.path.segments.last().map(|s| s.ident.to_string()).unwrap_or_default();
-        self.macros.push(format!("{{\"name\":{},\"span\":{}}}", js(&name), span_json(m.span())));
+        // `vec![x; n]` and `vec![a, b]` are different library calls: note a top-level `;`
+        let semi = m.tokens.clone().into_iter().any(|t| matches!(&t, proc_macro2::TokenTree::Punct(p) if p.as_char() == ';'));
+        self.macros.push(format!("{{\"name\":{},\"span\":{},\"semi\":{}}}", js(&name), span_json(m.span()), semi));
         // Try to look inside the macro arguments for expressions (e.g. ready!(…), vec![…]).
         if let Ok(args) = m.parse_body_with(syn::punctuated::Punctuated::<syn::Expr, syn::Token![,]>::parse_terminated) {
             for a in &args {
@@ -233,6 +236,13 @@ impl<'ast> Visit<'ast> for Inner {
             args.join(",")
         ));
         syn::visit::visit_expr_method_call(self, e);
+    }
+    fn visit_expr_call(&mut self, e: &'ast syn::ExprCall) {
+        if let syn::Expr::Path(p) = &*e.func {
+            let name: Vec<String> = p.path.segments.iter().map(|s| s.ident.to_string()).collect();
+            self.pathcalls.push(format!("{{\"name\":{},\"span\":{}}}", js(&name.join("::")), span_json(e.span())));
+        }
+        syn::visit::visit_expr_call(self, e);
     }
     fn visit_expr_await(&mut self, e: &'ast syn::ExprAwait) {
         self.calls.push(format!("{{\"name\":\"await\",\"span\":{},\"dot\":{}}}", span_json(e.span()), br(e.dot_token.span()).0));
@@ -306,7 +316,7 @@ impl Out {
             _ => "null".into(),
         };
         self.items.push(format!(
-            "{{\"kind\":\"fn\",\"key\":{},\"ctx\":{},\"span\":{},\"attrs\":{},\"vis\":{},\"sig\":{},\"body\":{},\"tail\":{},\"loops\":[{}],\"closures\":[{}],\"macros\":[{}],\"cfgs\":[{}],\"unsafes\":[{}],\"calls\":[{}],\"nested\":[{}]}}",
+            "{{\"kind\":\"fn\",\"key\":{},\"ctx\":{},\"span\":{},\"attrs\":{},\"vis\":{},\"sig\":{},\"body\":{},\"tail\":{},\"loops\":[{}],\"closures\":[{}],\"macros\":[{}],\"cfgs\":[{}],\"unsafes\":[{}],\"calls\":[{}],\"pathcalls\":[{}],\"nested\":[{}]}}",
             js(&key),
             js(ctx),
             span_json(whole),
@@ -321,6 +331,7 @@ impl Out {
             inner.cfgs.join(","),
             inner.unsafes.join(","),
             inner.calls.join(","),
+            inner.pathcalls.join(","),
             inner.nested.join(",")
         ));
     }
